@@ -120,7 +120,14 @@ def auxpow_section(rnd, coinbase=None, nbranch1=None, nbranch2=None, parent_vers
     return b
 
 
-def record(block_hash, height, status, ntx, file_no, off, header, undo=0, client=259900):
+# version of the node that wrote a record (nothing the parser reads depends on it): old, current, and either side of the release that
+# introduced xor.dat
+CLIENTS = [259900, 70001, 99900, 159900, 209900, 259900, 270000, 279999, 280000, 280100, 290000, 300000, (1 << 31) - 1]
+
+
+def record(block_hash, height, status, ntx, file_no, off, header, undo=0, client=None):
+    if client is None:
+        client = CLIENTS[(block_hash[0] ^ block_hash[5]) % len(CLIENTS)]
     v = varint(client) + varint(height) + varint(status) + varint(ntx)
     if status & (HAVE_DATA | HAVE_UNDO):
         v += varint(file_no)
@@ -314,6 +321,7 @@ class Scenario:
         self.verbose = 0
         self.threads = None
         self.meta = {}
+        self.block_at = set()  # (file name, offset) of every magic|size|block triple placed
         # circumstances of the run that no property lets the outcome depend on (see bb.ENV_KINDS): "links" (blk files are absolute
         # symlinks into a sibling directory), "cwd" (started elsewhere, dump folder given as a relative path), "slash" (paths end
         # in '/'), "tty" (stdout is a pseudo-terminal), "shm" (dump folder on another filesystem than the temp dir), "leftovers"
@@ -334,6 +342,7 @@ class Scenario:
         m = struct.pack("<I", magic if magic is not None else MAGIC[self.coin])
         sz = struct.pack("<I", len(blk_bytes) if size_field is None else size_field)
         self.put(name, pos, m + sz + blk_bytes)
+        self.block_at.add((name, pos))
         return pos + 8
 
     def options(self):
